@@ -12,7 +12,7 @@ RULE = ('Hypothesis draws a transform (DWT1D/2D forward and inverse, SWT, DTCWT 
         'scale options, functional afb2d/sfb2d and their non-separable versions) with its configuration, N,C in 1..4, two input '
         'recipes and scalars a,b from {0,+-1,2^k,1e+-6} or generated floats. Oracles: (i) T(ax+by) = aT(x)+bT(y); (ii) T(0) is '
         'exactly zero; (iii) the per-slice matrix extracted from basis inputs (N=1,C=1 geometry) predicts every slice of T(x); '
-        '(iv) T(x)[n,c] = T(x[n:n+1,c:c+1])[0,0]; (v) changing one slice leaves every other output slice bitwise unchanged; '
+        '(iv) T(x)[n,c] = T(x[n:n+1,c:c+1])[0,0]; (v) changing one slice - also to NaN or inf - leaves every other output slice bitwise unchanged; '
         '(vi) permuting batch items / channels permutes the outputs; (vii) for tiny cases the full (N*C*n)-column operator '
         'equals kron(I, A_slice). Non-trivial = N>=2 and C>=2. Distinct = configuration without seeds.')
 ASSUMPTIONS = ['tolerance 1e-9*gain*(|a|max|x|+|b|max|y|) with gain = largest absolute row sum of the extracted slice operator',
@@ -100,6 +100,18 @@ def run_case(case):
     mask[n0, c0] = False
     if T2.shape != Tx.shape or not np.array_equal(T2[mask], Tx[mask]):
         r.fail('isolation:' + kind, 'changing only slice (%d,%d) changed another output slice' % (n0, c0))
+    # (v') isolation also holds when the other slice is not finite (0*nan = nan would leak through any
+    # implementation that mixes slices with zero weights)
+    for poison, name in ((np.nan, 'nan'), (np.inf, 'inf')):
+        x3 = x.copy()
+        if name == 'nan':
+            x3[n0, c0] = poison
+        else:
+            x3[n0, c0, case['k'] % tin] = poison
+        T3 = T(x3)
+        if T3.shape != Tx.shape or not np.array_equal(T3[mask], Tx[mask]):
+            r.fail('isolation_nonfinite:' + kind, 'a %s in slice (%d,%d) changed another output slice' % (name, n0, c0))
+            break
     # (vi) permutation equivariance
     rs = np.random.RandomState(case['k'])
     pn, pc = rs.permutation(N), rs.permutation(C)
